@@ -1,12 +1,7 @@
 import GnoVerif.Proofs.C16Coins
+import GnoVerif.Model.C16Spec
 /-! Helper lemmas for C16: `DeductSessionSpend` / `CheckSessionSpend` on one session. -/
 namespace GnoVerif.C16
-
-/-- well-formed session record: valid coin sets, `used ≤ limit` denom by denom -/
-structure WFS (s : Session) : Prop where
-  used : validCoins s.used = true
-  limit : validCoins s.limit = true
-  le : ∀ d, amountOf s.used d ≤ amountOf s.limit d
 
 /-- the session as `DeductSessionSpend` sees it at block time `now` (pending reset applied) -/
 def norm (s : Session) (now : Int) : Session :=
